@@ -32,9 +32,8 @@ row("crate::bytes::<impl %s>::copy_be_bytes_to::{closure#0}" % U, "assert:Overfl
     "of core::slice::RChunksMut)")
 row("crate::utils::last_idx::{closure#1}", "assert:Overflow", "Overflow(Add:idx,1)",
     "idx + 1 where idx is a position returned by rposition over a slice: idx < len <= isize::MAX")
-row("crate::support::postgres::<impl postgres_types::FromSql<'a> for %s>::from_sql" % U, "assert:Overflow",
-    "Overflow(Sub:i,1)",
-    "raw[i - 1] inside `for i in (1..raw.len()).rev()`: i >= 1 (Rev<Range> is not modelled by the interval engine)")
+# (postgres BIT/VARBIT: raw[i - 1] inside `for i in (1..raw.len()).rev()` is discharged since Rev<Range> yields are
+#  known to be >= the range start)
 
 # ---- counting functions (C06) and what is built on them
 for fn, f in (("trailing_zeros", "trailing_zeros"), ("trailing_ones", "trailing_ones")):
